@@ -13,7 +13,7 @@ MANIFEST = {
             'array-formula ranges of shape 1x1, 1x2, 2x1 and 2x2 is built with each of 7 sheet namings (plain, with a space, lower case, needing quotes, with an apostrophe, digit-first, with a letter whose upper case is two letters), '
             'loaded fully or from chosen ranges (sentinel cells outside the model), calculated with and without overridden inputs, and written into fresh books, into the loaded '
             'books and to disk (read back with openpyxl). Every (book, sheet, coordinate) covered by the solution must hold the converted solved value at its own position, '
-            'no extra sheet may appear, sentinels must be untouched and compare() with the written files must report no difference; on the disk target a second, different solution is written over the same files and compared again in the same process. Half of the namings are repeated with the second book\'s sheet carrying the same name as the first book\'s.' ' Later additions: merged cells inside an overridden block, compare() without a solution argument and with each file alone, a pre-written range-override solution, whole-row nodes two rows high (thorough: whole-column nodes two columns wide) on every target.',
+            'no extra sheet may appear, sentinels must be untouched and compare() with the written files must report no difference; on the disk target a second, different solution is written over the same files and compared again in the same process. Half of the namings are repeated with the second book\'s sheet carrying the same name as the first book\'s.' ' Later additions: merged cells inside an overridden block, compare() without a solution argument and with each file alone, a pre-written range-override solution, whole-row nodes two rows high (thorough: whole-column nodes two columns wide) on every target; a linked workbook living in a sub-folder of the main workbook (one folder quick, three thorough; loaded explicitly or on demand; with and without an override), written to disk, read back cell by cell and compared.',
     'note': 'Oracle is the solution itself (the property is about reproduction), so no reference evaluator is trusted here; conversion rules from the statement.',
 }
 RULE = 'case = (sheet name, origin, override, target); every solved cell is one obligation; non-trivial = written and inspected; distinct = case key'
@@ -84,6 +84,8 @@ def convert(v):
 def run_case(case):
     if case[0] == 'wide':
         return run_wide(case)
+    if case[0] == 'subdir':
+        return run_subdir(case)
     _, sn, origin, over, target = case[:5]
     same = len(case) > 5 and case[5] == 'same-sheet-name'
     merged = len(case) > 5 and case[5] == 'merged'          # the loaded sheet has merged cells inside an overridden block
@@ -318,7 +320,77 @@ def run_wide(case):
     return result(ex, ['wide:%s:%s:%s' % (kind, target, 'ok' if not fails else 'fail')], fails[:8])
 
 
+def subdir_cases(tier):
+    """a linked workbook that lives in a sub-folder of the main workbook's folder: written to disk and compared (wave-7 hole)."""
+    for folder in (('data',) if tier == 'quick' else ('data', 'a/b', 'Data Sets')):
+        for origin in ('main-only', 'both'):
+            for over in (False, True):
+                yield ['subdir', folder, origin, over]
+
+
+def run_subdir(case):
+    _, folder, origin, over = case
+    import formulas, openpyxl
+    from xl import wbspec as X
+    from xl.evalcell import exc_name
+    desc = dict(folder=folder, origin=origin, over=over, subdir=True)
+    fails, ex = [], 0
+    a1 = 7 if over else 1
+    want = {'MAIN.XLSX': {'A1': a1, 'B1': a1 + 30, 'C1': (a1 + 30) * 2, 'E1': 30, 'F1': 'kx'},
+            folder.upper() + '/OTHER.XLSX': {'A1': 10, 'A2': 20, 'A3': 30, 'B1': 'k'}}
+    cwd = os.getcwd()
+    with X.Scratch() as d:
+        try:
+            src, out = os.path.join(d, 'src'), os.path.join(d, 'out')
+            os.makedirs(os.path.join(src, *folder.split('/')))
+            wb = openpyxl.Workbook()
+            ws = wb.active
+            ws.title = 'T'
+            ws['A1'], ws['A2'], ws['A3'], ws['B1'] = 10, 20, '=A1+A2', 'k'
+            other = os.path.join(src, *(folder.split('/') + ['other.xlsx']))
+            wb.save(other)
+            wb = openpyxl.Workbook()
+            ws = wb.active
+            ws.title = 'S'
+            ws['A1'] = 1
+            ws['B1'] = "=A1+'%s/[other.xlsx]T'!A3" % folder
+            ws['C1'] = '=B1*2'
+            ws['E1'] = "=SUM('%s/[other.xlsx]T'!A1:A2)" % folder
+            ws['F1'] = "='%s/[other.xlsx]T'!B1&\"x\"" % folder
+            wb.save(os.path.join(src, 'main.xlsx'))
+            os.chdir(src)
+            m = formulas.ExcelModel()
+            m = (m.loads('main.xlsx') if origin == 'main-only' else m.loads('main.xlsx', folder + '/other.xlsx')).finish()
+            sol = m.calculate({X.lib_id('main.xlsx', 'S', 'A1'): 7} if over else {})
+            ex += 1
+            names = sorted(m.write(solution=sol))
+            if [n.upper() for n in names] != sorted(want):
+                return result(ex, ['subdir:books'], [Fail('books-written', got=str(names), exp=str(sorted(want)), **desc)])
+            for n in names:
+                os.makedirs(os.path.dirname(os.path.join(out, *n.split('/'))), exist_ok=True)
+            m.write(solution=sol, dirpath=out)
+            files = [os.path.join(out, *n.split('/')) for n in sorted(names, key=lambda n: n.count('/'))]      # the main workbook first
+            for n, f in zip(sorted(names, key=lambda n: n.count('/')), files):
+                wsw = openpyxl.load_workbook(f)[{'MAIN.XLSX': 'S'}.get(n.upper(), 'T')]
+                for k, v in sorted(want[n.upper()].items()):
+                    ex += 1
+                    got = wsw[k].value
+                    if got != v or wsw[k].data_type == 'f':
+                        fails.append(Fail('cell-differs', got=repr(got), exp=repr(v), coord=k, book=n, **desc))
+            ex += 1
+            diff = m.compare(*files, solution=sol)
+            if diff:
+                fails.append(Fail('compare-reports-difference', got=str(diff[:2])[:200], exp='[]', **desc))
+        except Exception as e:
+            os.chdir(cwd)
+            return result(ex + 1, ['escape'], [Fail('escape', got='%s:%s' % (exc_name(e), str(e)[:150]), exp='write and compare succeed', **desc)])
+        finally:
+            os.chdir(cwd)
+    return result(ex, ['subdir:%s:%s:%s:%s' % (folder, origin, over, 'ok' if not fails else 'fail')], fails[:8])
+
+
 def run(ctx):
     ctx.explore(run_case, cases(ctx.tier), chunksize=1, label='write_cases')
     ctx.explore(run_case, wide_cases(ctx.tier), chunksize=1, label='whole_row_and_column_nodes', nproc=4)
+    ctx.explore(run_case, subdir_cases(ctx.tier), chunksize=1, label='linked_workbook_in_a_sub_folder')
     return {}
